@@ -293,4 +293,24 @@ def rule_binding(ctx):
             ctx.obls.append(o)
 
 
-RULES = [rule_declarations, rule_namespaces, rule_names, rule_one_conjecture, rule_pre1, rule_binding]
+def rule_problem_rename(ctx):
+    """The symbol / propositional-atom clash set is computed once from the whole problem and used for every formula: one source symbol is one
+    TPTP constant in the whole file (a per-formula set renames `a` to `a__s` in some formulas only)."""
+    fx = ctx.facts
+    b = fx.fn("problem::Problem::rename_conflicting_symbols")
+    v = sym.Eval(fx, inline_depth=0).function(b)
+    calls = [x for x in sym.subterms(v) if isinstance(x, tuple) and x[:2] == ("call", "AnnotatedFormula::rename_conflicting_symbols")]
+    ok = len(calls) == 1
+    why = "no single call of AnnotatedFormula::rename_conflicting_symbols"
+    if ok:
+        f_arg, clash = calls[0][2]
+        whole = any(x == ("call", "Problem::predicates", (("param", "self"),)) for x in sym.subterms(clash))
+        per_formula = any(isinstance(x, tuple) and x[:1] in (("param",), ("place",)) and x != ("param", "self") and not str(x[1]).startswith(("self", "p.", "p")) for x in sym.subterms(clash))
+        arity0 = ("bin", "Eq", ("place", "p.arity"), ("lit", 0)) in set(x for x in sym.subterms(clash) if isinstance(x, tuple))
+        mapped = any(isinstance(x, tuple) and x[:2] == ("call", "Iterator::map") and x[2][0] == ("place", "self.formulas") for x in sym.subterms(v))
+        ok = whole and not per_formula and arity0 and mapped
+        why = "clash set from the whole problem's predicates: %s; depends on the formula being renamed: %s; arity-0 filter: %s; applied to every formula: %s" % (whole, per_formula, arity0, mapped)
+    ctx.add("NS", "problem-rename:one-clash-set", ok, ctx.site(b), "Problem::rename_conflicting_symbols: " + why, construct=v)
+
+
+RULES = [rule_declarations, rule_namespaces, rule_names, rule_one_conjecture, rule_pre1, rule_binding, rule_problem_rename]
